@@ -980,7 +980,11 @@ func c27Run(rt *rapid.T, rec *vstat.Rec, env *c27Env, c c27Case) {
 			// phantom signatures are reserved for discrepancies that are
 			// explained by surplus events: leaving out one (or two) contiguous
 			// runs of events makes the replay exact
-			if c27ExplainedBySurplus(before, after, groups, filter, c.IDsOnly, cols) {
+			structural := false
+			for _, k := range []string{"does not match the filter", "row images present", "column names", "carries error", "without a complete", "with a before-image", "with an after-image", "unknown"} {
+				structural = structural || strings.Contains(msg, k)
+			}
+			if !structural && c27ExplainedBySurplus(before, after, groups, filter, c.IDsOnly, cols) {
 				sig = c27Classify(req, failed)
 			}
 		} else if m := c27CheckJSON(groups, c.IDsOnly); m != "" {
